@@ -125,6 +125,8 @@ func newConcRun(c *harness.Case, cfg concCfg) *concRun {
 	cr := &concRun{cfg: cfg, eng: eng, init: harness.NewModel()}
 	w := harness.NewWrap(ekv)
 	cr.w = w
+	// on memkv every other case keeps the engine's begin-to-commit lock semantics (see Wrap.EagerBegin)
+	w.EagerBegin = strings.HasPrefix(cfg.kind, "memkv") && c.Index%2 == 1
 	delaySeed := r.Int63()
 	faultOn := &cr.faultOn
 	w.BeforeCommit = func(b *harness.BatchInfo) {
